@@ -115,6 +115,12 @@ func normalizePercentEncoding(s string) string {
 				b.WriteString(percentEncodeUpper(hexVal))
 			}
 			i += 3
+		} else if s[i] >= 0x80 {
+			// A raw byte outside ASCII (net/url lets it through in a query) is
+			// the same octet as its percent-encoding, and keys stay ASCII: they
+			// are stored in a JSON index, which cannot carry arbitrary bytes.
+			b.WriteString(percentEncodeUpper(s[i]))
+			i++
 		} else {
 			b.WriteByte(s[i])
 			i++
@@ -142,9 +148,12 @@ func fromHex(c byte) byte {
 }
 
 // isUnreserved reports whether r is an unreserved character per RFC 3986 §2.3.
+// isUnreserved reports whether r is an unreserved character (RFC 3986 §2.3:
+// ASCII letters and digits, "-", ".", "_", "~"). An octet above 0x7F is not a
+// character of its own: it stays percent-encoded.
 func isUnreserved(r rune) bool {
-	return unicode.IsLetter(r) || unicode.IsDigit(r) ||
-		r == '-' || r == '.' || r == '_' || r == '~'
+	return r < 0x80 && (unicode.IsLetter(r) || unicode.IsDigit(r) ||
+		r == '-' || r == '.' || r == '_' || r == '~')
 }
 
 const hex = "0123456789ABCDEF"
